@@ -229,3 +229,60 @@ package logqlmetric
 //@   ensures[modifiers-unsupported] (old(expr.Modifier.Op) != "" || old(len(expr.Modifier.OpLabels)) > 0 || old(expr.Modifier.Group) != "" || old(len(expr.Modifier.Include)) > 0) ==> ret1 != nil
 //@   ensures[set-operators] ret1 == nil && (old(expr.Op) == logql.OpAnd || old(expr.Op) == logql.OpOr || old(expr.Op) == logql.OpUnless) ==> typeis[*mergeBinOpIterator](ret0) && as[*mergeBinOpIterator](ret0).left == left && as[*mergeBinOpIterator](ret0).right == right
 //@   ensures[sample-operators] ret1 == nil && !(old(expr.Op) == logql.OpAnd || old(expr.Op) == logql.OpOr || old(expr.Op) == logql.OpUnless) ==> typeis[*binOpIterator](ret0) && as[*binOpIterator](ret0).left == left && as[*binOpIterator](ret0).right == right
+
+// ---- C11: vector aggregations
+
+//@ scope vector_agg.go
+
+// The state of a streaming aggregator is private to it and is not part of the modelled heap
+// (assumption: an aggregator shares no memory with the iterator, the step or the result map).
+//@ iface Aggregator.Apply
+//@   modifies nothing
+//@ iface Aggregator.Result
+//@   pure
+
+//@ func buildAggregator
+//@   modifies nothing
+//@   ensures[supported]   (expr.Op == logql.VectorOpSum || expr.Op == logql.VectorOpAvg || expr.Op == logql.VectorOpCount || expr.Op == logql.VectorOpMax || expr.Op == logql.VectorOpMin || expr.Op == logql.VectorOpStddev || expr.Op == logql.VectorOpStdvar) == (ret1 == nil)
+
+//@ iface AggregatedLabels.By
+//@   pure
+//@ iface AggregatedLabels.Without
+//@   pure
+//@ func (Sample).Less
+//@   inline
+//@ func (Sample).Greater
+//@   inline
+
+//@ func VectorAggregation
+//@   logical al AggregatedLabels
+//@   logical x Sample
+//@   logical y Sample
+//@   ensures[no-grouping-retains-no-label] ret1 == nil && old(expr.Grouping) == nil ==> same(grouper(al, groupLabels...), al.By(groupLabels...)) && len(groupLabels) == 0
+//@   ensures[by-retains-listed]            ret1 == nil && old(expr.Grouping) != nil && !old(expr.Grouping.Without) ==> same(grouper(al, groupLabels...), al.By(groupLabels...)) && same(groupLabels, old(expr.Grouping.Labels))
+//@   ensures[without-drops-listed]         ret1 == nil && old(expr.Grouping) != nil && old(expr.Grouping.Without) ==> same(grouper(al, groupLabels...), al.Without(groupLabels...)) && same(groupLabels, old(expr.Grouping.Labels))
+//@   ensures[streaming-iterator] ret1 == nil && !(old(expr.Op) == logql.VectorOpBottomk || old(expr.Op) == logql.VectorOpSort || old(expr.Op) == logql.VectorOpTopk || old(expr.Op) == logql.VectorOpSortDesc) ==> typeis[*vectorAggIterator](ret0) && as[*vectorAggIterator](ret0).iter == iter && same(as[*vectorAggIterator](ret0).grouper, grouper) && same(as[*vectorAggIterator](ret0).groupLabels, groupLabels)
+//@   ensures[heap-iterator]      ret1 == nil && (old(expr.Op) == logql.VectorOpBottomk || old(expr.Op) == logql.VectorOpSort || old(expr.Op) == logql.VectorOpTopk || old(expr.Op) == logql.VectorOpSortDesc) ==> typeis[*vectorAggHeapIterator](ret0) && as[*vectorAggHeapIterator](ret0).iter == iter && same(as[*vectorAggHeapIterator](ret0).grouper, grouper) && same(as[*vectorAggHeapIterator](ret0).groupLabels, groupLabels)
+//@   ensures[smallest-first] ret1 == nil && (old(expr.Op) == logql.VectorOpBottomk || old(expr.Op) == logql.VectorOpSort) ==> as[*vectorAggHeapIterator](ret0).less(x, y) == x.Less(y) && as[*vectorAggHeapIterator](ret0).greater(x, y) == x.Greater(y)
+//@   ensures[largest-first]  ret1 == nil && (old(expr.Op) == logql.VectorOpTopk || old(expr.Op) == logql.VectorOpSortDesc) ==> as[*vectorAggHeapIterator](ret0).less(x, y) == x.Greater(y) && as[*vectorAggHeapIterator](ret0).greater(x, y) == x.Less(y)
+//@   ensures[limit] ret1 == nil && typeis[*vectorAggHeapIterator](ret0) ==> as[*vectorAggHeapIterator](ret0).limit == ite(old(expr.Parameter) == nil, -1, old(*expr.Parameter))
+
+//@ func (*vectorAggIterator).Next
+//@   assume_pure i.grouper
+//@   assume_fresh i.agg
+//@   capture nx = call(i.iter.Next, 0)
+//@   capture g  = call(i.grouper, 0)
+//@   capture k  = call(metric.Key, 0)
+//@   capture mk = call(i.agg, 0)
+//@   capture ap = call(g.agg.Apply, 0)
+//@   modifies *
+//@   ensures[advances-source] ret0 == (nx_called && nx_r0)
+//@   ensures[timestamp-passed-through] ret0 ==> r.Timestamp == step.Timestamp
+//@   loop 0 modifies result[*]
+//@   loop 0 invariant rangeindex+1 <= len(step.Samples) && result != nil
+//@   loop 0 body_ensures[grouped-by-key-of-grouped-labels] g_called && same(g_a0, s.Set) && same(g_a1, i.groupLabels) && k_called && same(k_recv, g_r0)
+//@   loop 0 body_ensures[applied-to-its-group] ap_called && has(result, k_r0) && ap_recv == result[k_r0].agg && same(ap_a0, s.Data)
+//@   loop 0 body_ensures[group-created-at-first-sight] mk_called == !head(has(result, k_r0)) && (mk_called ==> result[k_r0].agg == mk_r0 && result[k_r0].metric == g_r0)
+//@   loop 0 body_ensures[existing-group-kept] head(has(result, k_r0)) ==> result[k_r0] == head(result[k_r0])
+//@   loop 1 modifies r.Samples, r.Samples[*]
+//@   loop 1 body_ensures[one-sample-per-group] len(r.Samples) == head(len(r.Samples))+1 && same(r.Samples[len(r.Samples)-1].Set, g.metric) && same(r.Samples[len(r.Samples)-1].Data, g.agg.Result())
